@@ -92,6 +92,67 @@ func ruleScannerIsolation(c *Ctx, rule string) {
 	if next < 5 {
 		c.Ob(rule, "go/scanner.Scanner.Scan/extension-sites", fd, false, fmt.Sprintf("%d extension token assignments found, at least 5 expected", next))
 	}
+	// a case clause shared by a standard character and an extension character ('/', '#'): every alternative of a condition
+	// that looks at the next character also fixes the current one, otherwise the extension's look-ahead ("#!" is a comment)
+	// would apply to the standard character too ("/!"), and vice versa
+	nshared := 0
+	ast.Inspect(fd.Body, func(nd ast.Node) bool {
+		cl, ok := nd.(*ast.CaseClause)
+		if !ok || len(cl.List) < 2 {
+			return true
+		}
+		hasExt := false
+		for _, e := range cl.List {
+			if exprString(e) == "'#'" {
+				hasExt = true
+			}
+		}
+		if !hasExt {
+			return true
+		}
+		for _, st := range cl.Body {
+			ast.Inspect(st, func(m ast.Node) bool {
+				ifs, ok := m.(*ast.IfStmt)
+				if !ok {
+					return true
+				}
+				// an if nested in the body of another if of this clause inherits that one's guard
+				for _, anc := range enclosingStack(cl, ifs) {
+					if outer, isIf := anc.(*ast.IfStmt); isIf && outer != ifs && containsNode(outer.Body, ifs) {
+						return true
+					}
+				}
+				for _, term := range condDNF(ifs.Cond) {
+					looksAhead, fixesCurrent := false, false
+					for _, a := range term {
+						b, ok := unparen(a).(*ast.BinaryExpr)
+						if !ok || (b.Op != token.EQL && b.Op != token.NEQ) {
+							continue
+						}
+						if _, isCh := fieldSel(info, b.X, "ch"); isCh {
+							looksAhead = true
+						}
+						if id := identOf(b.X); id != nil && id.Name == "ch" && b.Op == token.EQL {
+							fixesCurrent = true
+						}
+					}
+					if looksAhead {
+						nshared++
+						var ts []string
+						for _, a := range term {
+							ts = append(ts, exprString(a))
+						}
+						c.Ob(rule, "go/scanner.Scanner.Scan/shared-clause "+strings.Join(ts, " && "), ifs, fixesCurrent, "in the clause shared by '/' and '#', an alternative that inspects the next character also says which character it follows")
+					}
+				}
+				return true
+			})
+		}
+		return true
+	})
+	if nshared < 3 {
+		c.Ob(rule, "go/scanner.Scanner.Scan/shared-clause", fd, false, fmt.Sprintf("%d look-ahead alternatives found in the shared clause, at least 3 expected", nshared))
+	}
 	// identifiers go through etoken.Lookup exactly once, everything else it returns comes from go/token
 	lk := c.P.Func("go/etoken.Lookup")
 	epk := c.P.Pkg("go/etoken")
@@ -407,7 +468,7 @@ func init() {
 	register(&PropDef{
 		ID:    "C23",
 		Title: "The forked scanner tokenizes extension-free input exactly like the Go scanner",
-		Explanation: "Decided (structural clauses; no comparison with the installed go/scanner is possible, the fork is a Go 1.13 copy): I1 extension isolation: in Scanner.Scan every assignment of an extension token (etoken.QUOTE ... HASH, LookupSpecial) is control-dependent on the current character being the macro character or '#'; etoken.Lookup returns a non-standard token only for the words macro and # (and template under C++-style generics) and classifies every other word with go/token.Lookup, unconditionally; " +
+		Explanation: "Decided (structural clauses; no comparison with the installed go/scanner is possible, the fork is a Go 1.13 copy): I1 extension isolation: in Scanner.Scan every assignment of an extension token (etoken.QUOTE ... HASH, LookupSpecial) is control-dependent on the current character being the macro character or '#'; etoken.Lookup returns a non-standard token only for the words macro and # (and template under C++-style generics) and classifies every other word with go/token.Lookup, unconditionally; in the case clause shared by '/' and '#' every alternative that inspects the next character also fixes the current one (so '#!' starts a comment but '/!' does not); " +
 			"I2 table agreement with the Go specification: for each operator / delimiter character the set of tokens its case can produce equals the specification's set (25 characters), every such character has a case, the switch2/3/4 helpers return the '=' form on '=', and every call passes (X, X_ASSIGN[, doubled char, doubled token[, its _ASSIGN]]) consistently with its case character; " +
 			"I3 the set of tokens after which a newline becomes a semicolon equals the specification's (identifier, literals, break continue fallthrough return ++ -- ) ] }). " +
 			"Not decided: scanning of identifiers, numbers, strings, runes and comments (scanIdentifier, scanNumber, scanString ...), positions, error reporting.",
@@ -420,6 +481,7 @@ func init() {
 		Technique: "AST/type-resolved custom analysis: control dependence of extension-token assignments, table agreement of the token switch against the Go specification",
 		Mutants: []Mutant{
 			{Name: "hash-token-for-slash", File: "go/scanner/scanner.go", Old: "\t\t\t} else if ch == '#' {\n\t\t\t\ttok = etoken.HASH", New: "\t\t\t} else if ch == '#' || s.ch == '#' {\n\t\t\t\ttok = etoken.HASH", Canary: true},
+			{Name: "slash-bang-taken-for-comment", File: "go/scanner/scanner.go", Old: "if ch == '/' && (s.ch == '/' || s.ch == '*') || ch == '#' && s.ch == '!' {", New: "if s.ch == '/' || s.ch == '*' || s.ch == '!' {"},
 			{Name: "percent-equals-becomes-quo-assign", File: "go/scanner/scanner.go", Old: "tok = s.switch2(token.REM, token.REM_ASSIGN)", New: "tok = s.switch2(token.REM, token.QUO_ASSIGN)", Canary: true},
 			{Name: "no-semicolon-after-rbrack", File: "go/scanner/scanner.go", Old: "\t\tcase ']':\n\t\t\tinsertSemi = true\n", New: "\t\tcase ']':\n"},
 			{Name: "semicolon-after-goto", File: "go/scanner/scanner.go", Old: "case token.IDENT, token.BREAK, token.CONTINUE, token.FALLTHROUGH, token.RETURN:", New: "case token.IDENT, token.BREAK, token.CONTINUE, token.FALLTHROUGH, token.RETURN, token.GOTO:"},
